@@ -275,6 +275,8 @@ def is_pure_assert(st):
     m = st["e"]
     if m.get("k") != "macro" or m.get("name") not in ASSERT_MACROS or m.get("args") is None:
         return False
+    if m["args"] and isinstance(m["args"][0], dict) and m["args"][0].get("k") == "lit" and m["args"][0].get("t") == "bool":
+        return False  # `debug_assert!(false, ..)` marks an arm as unreachable: it stays where it is for the census to place
     return all(pure_expr(a) for a in m["args"])
 
 
